@@ -174,7 +174,10 @@ theorem step_ok (E : Env) (k : Kind) (s : MultiState) (op : Op) (s' : MultiState
     simp [stepOK, viewIs_code, writeFirstValue_view, hr, writeFirstValue_length, isEmpty_writeFirstValue]
   | _ => simp [stepOK, hv]
 
-/-- **multivalue_view_history** — for EVERY member type, start state and history of whole-element
+/-- (Outside the two view-WRITE operations this holds BY CONSTRUCTION of the getters: the view is computed from
+    the current members on every read, whatever the step function does; the content is in `setU_spec` /
+    `setValue_spec` / `step_ok` for the writes and in the three counter-models.  Third review, DESIGN 11.10.)
+    **multivalue_view_history** — for EVERY member type, start state and history of whole-element
     `set()` / `set_flat()`, member `set()`, list operations (`append`, `insert`, `extend`,
     `mv[i] = x`, `del mv[i]`, `pop`, `del mv[a:b:c]`, Python index and slice rules) and view
     writes `mv.u = x` / `mv.value = x`: after every completed step the scalar view read through
